@@ -656,7 +656,7 @@ func TestC08(t *testing.T) {
 		role := hist.Roles(p, 2)[u.N(2, "role")]
 		tr := &hist.Trace{Params: p, Roles: []sim.Role{role}, Profile: prof}
 		nblocks := u.Range(4, maxBlocks, "nblocks")
-		slowClock := u.N(4, "slowclock") == 0 || os.Getenv("VERIF_C08_SLOW") != "" // months between blocks: year-close and burn-out boundaries fall inside the history
+		slowClock := u.N(3, "slowclock") == 0 || os.Getenv("VERIF_C08_SLOW") != "" // months between blocks: year-close and burn-out boundaries fall inside the history
 		standstill := u.N(2, "standstillmode") == 0
 		scripted := u.N(3, "cfgscript") == 0
 		if slowClock && standstill {
@@ -712,7 +712,7 @@ func TestC08(t *testing.T) {
 				// a chain that runs at normal speed and stood still for months once or twice
 				spec.GapSecs = []int64{1, 5, 60}[u.N(3, "fastgap")]
 				if u.N(6, "standstill") == 0 {
-					spec.GapSecs = int64([]int{100, 150, 200, 250, 300, 330}[u.N(6, "standstilldays")]) * 86400
+					spec.GapSecs = int64([]int{100, 150, 200, 250, 280, 300, 330, 345}[u.N(8, "standstilldays")]) * 86400
 				}
 			} else if slowClock {
 				spec.GapSecs = []int64{1, 5, 86400, 864000, 2592000, 7776000, 7776000}[u.N(7, "slowgap")]
